@@ -25,12 +25,13 @@ MinVarCase(c) ==
    tie |-> [g \in 1..len |-> A_MinVariationTie(fits, sample, g - 1, th[1], th[2])]]
 MinVarCases == { MinVarCase(c) : c \in 1..(IF Thorough THEN 6000 ELSE 800) }
 EstimateCases == { [kind |-> "estimate", limit |-> lim, gens |-> <<0, 1, lim - 1, lim, lim + 1, 10 * lim, 1000000>>] : lim \in {1, 2, 7, 1000} }
+                 \cup { [kind |-> "estimate", limit |-> 0, gens |-> <<0, 1, 5>>] }          \* a limit of 0 generations is reached at once
 \* target proximity: fires when the relative distance between the target and the best fitness is below the threshold
 ProxMags == <<0 - 4, 0 - 2, 0 - 1, 0, 1, 2, 4>>
 ProxCases == { [kind |-> "proximity", target |-> [i \in 1..d |-> ProxMags[1 + Hash(c, i, 7)]], best |-> [i \in 1..d |-> ProxMags[1 + Hash(c, 20 + i, 7)]],
                 tn |-> th[1], td |-> th[2]] : d \in 1..2, c \in 1..(IF Thorough THEN 400 ELSE 80), th \in { <<1, 10>>, <<1, 2>>, <<1, 1>>, <<3, 2>> } }
 \* composite of generation limits: fires with the first, estimate = the largest of the parts
-CompositeCases == { [kind |-> "composite", limits |-> SetToSeq(ls), gens |-> <<0, 1, 2, 6, 7, 8, 1000>>] : ls \in SUBSET {1, 2, 7} }
+CompositeCases == { [kind |-> "composite", limits |-> SetToSeq(ls), gens |-> <<0, 1, 2, 6, 7, 8, 1000>>] : ls \in SUBSET {0, 1, 2, 7} }
 MaxTimeCases == { [kind |-> "maxtime", limitMs |-> ms] : ms \in {0, 1, 10, 3600000} }
 \* the adaptive selector over a scalar test problem: 1-5 recording operators of different temper, 40 / 200 / 1000 searches
 DynCases == { [kind |-> "dyn", ops |-> m, steps |-> st, mode |-> md] : m \in 1..5, st \in (IF Thorough THEN {40, 200, 1000} ELSE {40, 200}), md \in 0..3 }
